@@ -446,13 +446,27 @@ class IoWorld(World):
         return net
 
     # --------------------------------------------------------------- execution
+    def _big(self, st):
+        """More than 1500 observations are written / read by this step."""
+        n = 0
+        for t in ([st["track"]] if isinstance(st.get("track"), dict) else []) + list(st.get("tracks") or []):
+            n += len(t.get("obs", []))
+        e = self.cat.get(st.get("path"))
+        if e:
+            for t in ([e["track"]] if isinstance(e.get("track"), dict) else []) + list(e.get("tracks") or []):
+                n += len(t.get("obs", []))
+        return n > 1500
+
     def _begin(self, st):
         self.clock.t += int(st.get("dt", 0))
         self.sim_seconds += abs(int(st.get("dt", 0)))
-        self.fs.plan.arm(st.get("fault"))
+        fault = st.get("fault")
+        if fault and fault.get("kind") == "interrupt" and self._big(st):
+            fault = None        # line tracing a 9000-fix write takes longer than the step watchdog allows
+        self.fs.plan.arm(fault)
         self.fs.ls_seed = st.get("ls", 0)
-        if st.get("fault"):
-            self.stats["fault_armed:" + st["fault"]["kind"]] += 1
+        if fault:
+            self.stats["fault_armed:" + fault["kind"]] += 1
 
     def _io_call(self, st, fn, *a, **k):
         """Run one real I/O call under the armed fault."""
@@ -463,6 +477,7 @@ class IoWorld(World):
                 rv, exc = self.call(fn, *a, **k)
         else:
             rv, exc = self.call(fn, *a, **k)
+        self.fs.sync()
         fired = plan.fired
         kind = plan.kind
         if fired:
